@@ -201,6 +201,10 @@ func (m *Machine) callBody(caller *frame, fn *ssa.Function, args []Value, env []
 		m.unsupported("generic function body not instantiated: %s", fn.String())
 	}
 	m.depth++
+	if m.cfg.CallDepthCrash > 0 && m.depth > m.cfg.CallDepthCrash {
+		m.depth--
+		m.runtimePanic("fatal error: stack overflow (call nesting deeper than " + fmt.Sprint(m.cfg.CallDepthCrash) + ")")
+	}
 	if m.depth > 400 {
 		m.endPath("bound", "call depth exceeded in "+fn.String())
 	}
